@@ -1,7 +1,7 @@
 SPECIFICATION Spec
 CONSTANTS
   Chunks = 8
-  PerCase = 2
+  PerCase = 1
 INVARIANTS
   CtxLaw
 POSTCONDITION Emit
